@@ -555,6 +555,23 @@ func firstDiff(a, b string) string {
 	return "shape"
 }
 
+// newRunner builds the three worlds (every corpus resource registered on a plain server, on a
+// prefixed one and behind a ServeMux) and the call generator.
+func newRunner(cfg Config, r *hx.Result) *runner {
+	x := &runner{cfg: cfg, r: r, env: ExtEnv(), bindings: bindings, worlds: map[string]*world{}}
+	x.worlds["plain"] = newWorld(bindings, "", false)
+	x.worlds["prefixed"] = newWorld(bindings, prefixPath, false)
+	x.worlds["mux"] = newWorld(bindings, "", true)
+	x.gen = &generator{env: x.env, rng: hx.Rng(cfg.Seed, "c02")}
+	return x
+}
+
+func (x *runner) close() {
+	for _, w := range x.worlds {
+		w.close()
+	}
+}
+
 func Run(cfg Config) *hx.Result {
 	r := hx.NewResult("C02", cfg.Module, cfg.Seed, cfg.Tier)
 	r.Rule = "calls drawn per (resource, method) of the C02 resource corpus through the clients the real generator produced, " +
@@ -567,16 +584,8 @@ func Run(cfg Config) *hx.Result {
 	if len(cfg.Replay) == 0 {
 		tbl.Confirm(cfg.Driver, cfg.Module, r)
 	}
-	x := &runner{cfg: cfg, r: r, env: ExtEnv(), bindings: bindings, worlds: map[string]*world{}}
-	x.worlds["plain"] = newWorld(bindings, "", false)
-	x.worlds["prefixed"] = newWorld(bindings, prefixPath, false)
-	x.worlds["mux"] = newWorld(bindings, "", true)
-	defer func() {
-		for _, w := range x.worlds {
-			w.close()
-		}
-	}()
-	x.gen = &generator{env: x.env, rng: hx.Rng(cfg.Seed, "c02")}
+	x := newRunner(cfg, r)
+	defer x.close()
 
 	if len(cfg.Replay) > 0 {
 		for _, line := range cfg.Replay {
@@ -593,6 +602,11 @@ func Run(cfg Config) *hx.Result {
 	n := 0
 	for round := 0; round < perMethod; round++ {
 		for _, res := range rs {
+			if res.HasExclusions() {
+				// read-only / create-only fields: property C07's resources (excl.go); the calls drawn
+				// here and the Lean model of a call know nothing about field exclusion
+				continue
+			}
 			for i := range res.Methods {
 				c := x.gen.call(res, &res.Methods[i])
 				cfgs := []runCfg{{"wire", 0, "plain"}, {"wire", 1, "plain"}}
